@@ -29,7 +29,7 @@ CQ = "evaluation.metrics.tracking.clear.CLEAR."
 
 def rule_accounting(ctx: Ctx) -> None:
     fi = ctx.func(CQ + "_calculate_tp_fp")
-    paths = enum_paths(ctx, fi, loop_mode="inner-unroll", unroll=3)
+    paths = enum_paths(ctx, fi, loop_mode="inner-unroll", unroll=6)
     lps = loops_of(paths)
     ctx.require(len(lps) == 1, "_calculate_tp_fp: expected one outer loop")
     lp = lps[0]
@@ -94,6 +94,30 @@ def rule_accounting(ctx: Ctx) -> None:
             ctx.check(bool(prev_tp) and bool(same_here) and not ids and bp.exit == ("continue",), "C05-accounting", "_calculate_tp_fp", f"carried:{short}",
                       "a carried-over TP must come from a previous TP that is the same match, must not count a switch, and must end the handling of the current result",
                       fi=fi, sample={"path": short, "carried_from": who})
+    # accumulators: start at zero, only ever grow by addition; the tests are asked about (current, previous) in that order and in the evaluated mode
+    for p in paths:
+        init = {e.recv: S(e.value) for e in p.effects if e.kind == "assign" and e.recv in ("tp", "fp", "num_id_switch", "tp_matching_score")}
+        for k2 in ("tp", "fp", "num_id_switch", "tp_matching_score"):
+            v0 = init.get(k2, S(lp.pre.get(k2)) if lp.pre.get(k2) is not None else None)
+            ctx.check(v0 in ("0.0", "0"), "C05-accounting", "_calculate_tp_fp", f"starts-at-zero:{k2}", f"the total `{k2}` starts at {v0}; it must start at 0", fi=fi, expected="0", found=str(v0))
+        break
+    seen_ops = set()
+    for bp in lp.body:
+        for e in bp.effects:
+            if e.kind == "aug" and strip_v(e.recv) in ("tp", "fp", "num_id_switch", "tp_matching_score") and (strip_v(e.recv), e.name) not in seen_ops:
+                seen_ops.add((strip_v(e.recv), e.name))
+                ctx.check(e.name == "Add", "C05-accounting", "_calculate_tp_fp", f"adds:{strip_v(e.recv)}:{e.name}", f"`{strip_v(e.recv)}` is updated with operator {e.name}; totals only grow by addition", fi=fi, expected="+=", found=e.name)
+        for k2 in bp.facts:
+            t = strip_v(S(k2))
+            m2 = re.match(r"^call:(\w+)\.is_result_correct\((.*)\)$", t)
+            if m2:
+                args2 = m2.group(2)
+                ok2 = args2.startswith("self.matching_mode,get_label_threshold(") or args2.startswith("matching_mode=self.matching_mode,matching_threshold=get_label_threshold(")
+                ctx.check(ok2, "C05-accounting", "_calculate_tp_fp", f"correctness-args:{m2.group(1)}", f"{m2.group(1)}.is_result_correct is asked with ({args2[:80]}); expected (self.matching_mode, <threshold of the label>)", fi=fi)
+            m3 = re.match(r"^call:self\.(_is_id_switched|_is_same_match)\((.*)\)$", t)
+            if m3:
+                ctx.check(re.match(rf"^{cur},\w+$", m3.group(2)) is not None and m3.group(2).split(",")[1] != cur, "C05-accounting", "_calculate_tp_fp", f"pair-args:{m3.group(1)}",
+                          f"self.{m3.group(1)} is asked about ({m3.group(2)}); expected (current result, previous result)", fi=fi)
     # switches never counted without a TP of the current result
     for bp in lp.body:
         ids = [e for e in bp.effects if e.kind == "aug" and strip_v(e.recv) == "num_id_switch"]
@@ -135,7 +159,23 @@ def _pair_table(ctx: Ctx, fname: str, spec) -> None:
             "elabel": same("estimated_object.semantic_label"),
             "gid": same("ground_truth_object.uuid"),
         }
-        ctx.require(len(f) == sum(1 for v in atoms.values() if v is not None), f"{fname}: decision depends on unexpected tests [{p.cond_text()[:160]}]")
+        known_keys = {f"none:{a}.ground_truth_object", f"none:{b}.ground_truth_object"} | {
+            f"same:{x}.{y}=={z}.{y}" for y in ("estimated_object.uuid", "estimated_object.semantic_label", "ground_truth_object.uuid") for x, z in ((a, b), (b, a))}
+        unexpected = [k for k in f if k not in known_keys]
+        wrong = False
+        for k in unexpected:
+            m = re.match(rf"^same:({a}|{b})\.([\w.]+)==({a}|{b})\.([\w.]+)$", k)
+            if m and (m.group(2) != m.group(4) or m.group(1) == m.group(3)):
+                ctx.violate("C05-pairing", fname, f"compares:{m.group(2)}~{m.group(4)}",
+                            f"{fname} compares `{m.group(1)}.{m.group(2)}` with `{m.group(3)}.{m.group(4)}`; the definition compares the same field of the current and the previous result "
+                            "(estimate id, estimate label, ground-truth id)", fi=fi, expected="same field of current and previous result", found=k[5:])
+                wrong = True
+            elif re.match(rf"^none:({a}|{b})\.estimated_object$", k):
+                ctx.violate("C05-pairing", fname, "none-test-on-estimate", f"{fname} tests `{k[5:]}` for None; the guard of the definition is on the GROUND TRUTH of each result (an estimate is never None)", fi=fi)
+                wrong = True
+        if wrong:
+            continue
+        ctx.require(not unexpected, f"{fname}: decision depends on unexpected tests [{p.cond_text()[:160]}]")
         free = [k for k, v in atoms.items() if v is None]
         for bits in range(1 << len(free)):
             full = dict(atoms)
@@ -280,12 +320,21 @@ def rule_formulas(ctx: Ctx) -> None:
         tag = f"mota_inf={int(mota_inf)},motp_inf={int(motp_inf)}"
         FF = Formula()
         ok = ("mota" in augs) == (not mota_inf) and ("mota" not in augs or FF.parse(augs["mota"].value).equals(FF.parse_text(f"{c}.mota * {c}.num_ground_truth")))
+        ok = ok and ("mota" not in augs or augs["mota"].name == "Add")
         ctx.check(ok, "C05-formula", "_sum_clear", f"mota-weight:{tag}", "total MOTA must add mota * num_ground_truth for every label with a finite MOTA (ground-truth weighted)", fi=fs)
         ok = ("motp" in augs) == (not motp_inf) and ("motp" not in augs or FF.parse(augs["motp"].value).equals(FF.parse_text(f"{c}.motp * {c}.tp")))
+        ok = ok and ("motp" not in augs or augs["motp"].name == "Add")
         ctx.check(ok, "C05-formula", "_sum_clear", f"motp-weight:{tag}", "total MOTP must add motp * tp for every label with a finite MOTP (TP weighted)", fi=fs)
         for k, v in want_uncond.items():
             ok = k in augs and augs[k].name == "Add" and S(augs[k].value) in (v, v.replace("int(", "").rstrip(")") if k == "num_tp" else v)
             ctx.check(ok, "C05-formula", "_sum_clear", f"{k}:{tag}", f"{k} must add {v} for every label", fi=fs)
+    # the five totals start at zero
+    for p in paths[:1]:
+        init = {e.recv: S(e.value) for e in p.effects if e.kind == "assign" and e.recv in ("mota", "motp", "num_gt", "num_tp", "num_id_switch")}
+        lpe = [e for e in p.effects if e.kind == "loop"][0]
+        for k2 in ("mota", "motp", "num_gt", "num_tp", "num_id_switch"):
+            first = next((S(e.value) for e in p.effects[: p.effects.index(lpe)] if e.kind == "assign" and e.recv == k2), S(lpe.pre.get(k2)) if lpe.pre.get(k2) is not None else None)
+            ctx.check(first in ("0.0", "0"), "C05-formula", "_sum_clear", f"starts-at-zero:{k2}", f"the total `{k2}` starts at {first}; it must start at 0", fi=fs, expected="0", found=str(first))
     # after the loop: replay the assignments
     for p in paths:
         idx = max(i for i, e in enumerate(p.effects) if e.kind == "loop")
